@@ -25,11 +25,11 @@ PROPS: dict[str, dict] = {
     "C16": {"modules": ["vf.h_presched"], "harnesses": ["presched"]},
     "C01": {"modules": ["vf.h_ctrl"], "harnesses": ["ctrl-C01"]},
     "C02": {"modules": ["vf.h_ctrl", "vf.h_worker"], "harnesses": ["ctrl-C02", "worker-wakeup", "act-step"]},
-    "C03": {"modules": ["vf.h_ctrl"], "harnesses": ["ctrl-C03"]},
+    "C03": {"modules": ["vf.h_ctrl"], "harnesses": ["ctrl-C03", "plan-step"]},
     "C04": {"modules": ["vf.h_ctrl"], "harnesses": ["ctrl-C04"]},
     "C17": {"modules": ["vf.h_wire", "vf.h_comms", "vf.h_wire2"], "harnesses": ["shm-wire-smt", "frame-sequences", "wire-pickle-json"]},
     "C08": {"modules": ["vf.h_shm"], "harnesses": ["shm-step", "shm-server-dispatch"]},
-    "C09": {"modules": ["vf.h_shm"], "harnesses": ["shm-step-bytes", "shm-evict-liveness"]},
+    "C09": {"modules": ["vf.h_shm"], "harnesses": ["shm-step-bytes", "shm-evict-liveness"], "cpu_quick": 16 * 600.0},
 }
 
 
@@ -66,7 +66,7 @@ def main(argv=None) -> int:
             names = [n for n in names if n in a.only.split(",")]
         hs = [runner.REGISTRY[n] for n in names]
         rc = runner.check_property(a.pid, hs, a.tier, seed, a.jobs, level=d.get("level", "other"),
-                                   explanation=d.get("explanation", ""))
+                                   explanation=d.get("explanation", ""), cpu_total=d.get(f"cpu_{a.tier}"))
         print(f"[{a.pid}] tier={a.tier} exit={rc}")
         return rc
     if a.cmd == "replay":
